@@ -74,9 +74,9 @@ def catalogue():
     E.append(Entry("NgramMask", lambda: V.NgramVectorizer(min_occurrences=3, mask_string="[M]"), TOK, [("unseen", TOK_NEW)], width=lambda e: len(e.column_label_dictionary_)))
     E.append(Entry("Skipgram", lambda: V.SkipgramVectorizer(window_radius=2), TOK, [("unseen", TOK_NEW), ("subset", [["a", "b"], []]), ("train", TOK)],
                    width=lambda e: len(e.column_label_dictionary_)))
-    E.append(Entry("LZ", lambda: V.LZCompressionVectorizer(), STR, [("unseen", STR_NEW), ("train", STR)], width=lambda e: len(e.column_label_dictionary_)))
+    E.append(Entry("LZ", lambda: V.LZCompressionVectorizer(max_columns=None), STR, [("unseen", STR_NEW), ("train", STR)], width=lambda e: len(e.column_label_dictionary_)))
     E.append(Entry("LZhash", lambda: V.LZCompressionVectorizer(max_columns=4, random_state=3), STR, [("unseen", STR_NEW)], width=lambda e: len(e.column_label_dictionary_)))
-    E.append(Entry("LZcap", lambda: V.LZCompressionVectorizer(max_dict_size=3), STR, [("unseen", STR_NEW)], width=lambda e: len(e.column_label_dictionary_)))
+    E.append(Entry("LZcap", lambda: V.LZCompressionVectorizer(max_dict_size=3, max_columns=None), STR, [("unseen", STR_NEW)], width=lambda e: len(e.column_label_dictionary_)))
     E.append(Entry("BPEmatrix", lambda: V.BytePairEncodingVectorizer(max_vocab_size=3, return_type="matrix"), STR, [("unseen", STR_NEW), ("train", STR)],
                    width=lambda e: len(e.column_label_dictionary_)))
     E.append(Entry("BPEseq", lambda: V.BytePairEncodingVectorizer(max_vocab_size=3, return_type="sequences"), STR, [("unseen", STR_NEW)], width=None))
